@@ -26,45 +26,57 @@ type slice interface {
 }
 
 // generator writes the cases of one slice.
-type generator func(r *rand.Rand, n int, tier string, emit func(string))
+// generator writes the cases of one slice. emit returns the implementation's observation for the line when the harness is in
+// `run` mode (online generation may steer towards boundaries using it) and "" in `gen` mode.
+type generator func(r *rand.Rand, n int, tier string, emit func(string) string)
 
 var slices = map[string]func() slice{}
 var generators = map[string]generator{}
 
+type executor struct {
+	live map[string]slice
+	out  *bufio.Writer
+}
+
+// line executes one protocol line, prints it (with its observation) and returns the observation.
+func (e *executor) line(line string) string {
+	if i := strings.Index(line, " => "); i >= 0 {
+		line = line[:i]
+	}
+	toks := strings.Fields(line)
+	if len(toks) == 0 {
+		return ""
+	}
+	if toks[0] == "case" {
+		for _, s := range e.live {
+			s.reset()
+		}
+		fmt.Fprintln(e.out, line)
+		return ""
+	}
+	mk, ok := slices[toks[0]]
+	if !ok {
+		fmt.Fprintln(e.out, line+" => unknown-slice")
+		return "unknown-slice"
+	}
+	s, ok := e.live[toks[0]]
+	if !ok {
+		s = mk()
+		e.live[toks[0]] = s
+	}
+	obs := safeExec(s, toks[1:])
+	if obs == "" {
+		fmt.Fprintln(e.out, line)
+	} else {
+		fmt.Fprintln(e.out, line+" => "+obs)
+	}
+	return obs
+}
+
 func execStream(in *bufio.Scanner, out *bufio.Writer) {
-	live := map[string]slice{}
+	e := &executor{live: map[string]slice{}, out: out}
 	for in.Scan() {
-		line := strings.TrimRight(in.Text(), "\r\n")
-		if i := strings.Index(line, " => "); i >= 0 {
-			line = line[:i]
-		}
-		toks := strings.Fields(line)
-		if len(toks) == 0 {
-			continue
-		}
-		if toks[0] == "case" {
-			for _, s := range live {
-				s.reset()
-			}
-			fmt.Fprintln(out, line)
-			continue
-		}
-		mk, ok := slices[toks[0]]
-		if !ok {
-			fmt.Fprintln(out, line+" => unknown-slice")
-			continue
-		}
-		s, ok := live[toks[0]]
-		if !ok {
-			s = mk()
-			live[toks[0]] = s
-		}
-		obs := safeExec(s, toks[1:])
-		if obs == "" {
-			fmt.Fprintln(out, line)
-		} else {
-			fmt.Fprintln(out, line+" => "+obs)
-		}
+		e.line(strings.TrimRight(in.Text(), "\r\n"))
 	}
 }
 
@@ -109,14 +121,11 @@ func main() {
 		}
 		r := rand.New(rand.NewSource(*seed))
 		if cmd == "gen" {
-			g(r, *n, *tier, func(l string) { fmt.Fprintln(out, l) })
+			g(r, *n, *tier, func(l string) string { fmt.Fprintln(out, l); return "" })
 			return
 		}
-		var sb strings.Builder
-		g(r, *n, *tier, func(l string) { sb.WriteString(l); sb.WriteByte('\n') })
-		sc := bufio.NewScanner(strings.NewReader(sb.String()))
-		sc.Buffer(make([]byte, 1<<20), 1<<26)
-		execStream(sc, out)
+		e := &executor{live: map[string]slice{}, out: out}
+		g(r, *n, *tier, e.line)
 	default:
 		if f, ok := commands[cmd]; ok {
 			out.Flush()
